@@ -237,8 +237,10 @@ def check_c09(run: Run, prog: Program) -> None:
         "decides the kind-dispatch clauses of dist: (E9.1) the reduction over all ordered pairs of concrete kinds terminates, "
         "(E9.3) every pair C09 documents reaches a base formula in both argument orders, (E9.5) the == short-cut cannot fire "
         "across kinds; and the homogeneity clause (E5.ret): the bracket formula of the point distance and the value returned by angle "
-        "have degree 0 in the raw coordinates of every argument. NOT decided: the values of the formulas, branch cuts "
-        "of log/sqrt, isometry invariance."
+        "have degree 0 in the raw coordinates of every argument; and (E19.dist) the base formula itself in the plane: the square of "
+        "4 |sqrt([p,q,I][p,q,J]) / ([p,I,J][q,I,J])|, with I and J read from the module and i^2 = -1, is the squared Euclidean distance of the dehomogenised points "
+        "as a polynomial identity in arbitrary representatives - every documented pair of dist reduces to this formula (E9). NOT decided: the reduction of points of "
+        "3-space to the plane (orth), the Laguerre formula of angle (complex logarithm), branch cuts, isometry invariance."
     )
     fn = prog.body_of(prog.func("dist"))
     n = dispatch.analyse(run, prog, fn, C09_DOCUMENTED)
@@ -251,6 +253,10 @@ def check_c09(run: Run, prog: Program) -> None:
     names |= {prog.functions[q].name for q in impls}
     n2 = homog.add_returns(run, prog, lambda f: f.qualname in impls, extra_names=names)
     run.floor("return paths of the distance/angle formulas", n2, 3)
+    from geolint import quadforms
+
+    n3 = quadforms.rule_point_dist(run, prog)
+    run.floor("closed form of the point distance read", n3, 1)
 
 
 # ================================================================================================ C18
